@@ -97,3 +97,51 @@ fn c10_block_replay() {
     }
     println!("C10-BLOCK-REPLAY-OK cases={}", cases);
 }
+
+// the table without entries: SstBuilder::seal provides for it (timestamps (0, 0), empty first key, MAX_KEY as last key);
+// it has to seal, reopen, and behave as an empty table under every cursor call and point lookup
+#[test]
+fn c10_empty_sst_replay() {
+    use sst::{Builder, Cursor, SstBuilder, SstOptions};
+    let p = std::env::temp_dir().join(format!("c10_empty_sst_{}.sst", std::process::id()));
+    let _ = std::fs::remove_file(&p);
+    let fail = |what: String| -> ! {
+        println!("C10-BLOCK-REPLAY empty table: {what}");
+        panic!("C10-BLOCK-REPLAY empty table: {what}");
+    };
+    let sst = match SstBuilder::new(SstOptions::default(), &p).unwrap().seal() {
+        Ok(sst) => sst,
+        Err(e) => fail(format!("SstBuilder::seal() of a builder that accepted nothing fails: {e}")),
+    };
+    let mut c = sst.cursor();
+    let step = |what: &str, r: Result<(), sst::SError>, c: &sst::SstCursor| {
+        if let Err(e) = r {
+            fail(format!("{what} fails: {e}"));
+        }
+        if c.key().is_some() {
+            fail(format!("{what}: the cursor shows an entry"));
+        }
+    };
+    let r = c.seek_to_first(); step("seek_to_first", r, &c);
+    let r = c.next(); step("next", r, &c);
+    let r = c.next(); step("next next", r, &c);
+    let r = c.prev(); step("prev", r, &c);
+    let r = c.seek(b"k"); step("seek", r, &c);
+    let r = c.prev(); step("seek prev", r, &c);
+    let r = c.seek_to_last(); step("seek_to_last", r, &c);
+    let r = c.prev(); step("seek_to_last prev", r, &c);
+    let mut tomb = false;
+    match sst.load(b"k", 5, &mut tomb) {
+        Ok(None) if !tomb => {}
+        other => fail(format!("load(k, 5) = {other:?}, tombstone {tomb}")),
+    }
+    match sst.metadata() {
+        Ok(m) => {
+            if !m.first_key.is_empty() || m.smallest_timestamp != 0 || m.biggest_timestamp != 0 {
+                fail(format!("metadata first_key {:?} timestamps ({}, {})", m.first_key, m.smallest_timestamp, m.biggest_timestamp));
+            }
+        }
+        Err(e) => fail(format!("metadata fails: {e}")),
+    }
+    let _ = std::fs::remove_file(&p);
+}
